@@ -1422,7 +1422,8 @@ class PGPKey(Armorable, ParentRef, PGPObject):
             sig = next((s for s in reversed(uid._signatures)
                         if s.type != SignatureType.CertRevocation
                         and self.fingerprint == (s.signer_fingerprint or s.signer)), None)
-            if sig is not None and sig.key_expiration is not None:
+            # (a key expiration time of zero means that the key never expires - RFC 4880, 5.2.3.6)
+            if sig is not None and sig.key_expiration is not None and sig.key_expiration.total_seconds() != 0:
                 expires = sig.key_expiration
 
         if expires is not None:
